@@ -165,6 +165,8 @@ class Codec:
 
         # field values never contain SOH, so only SOH + marker starts a new frame
         next_msg = msg.find(self.SOH + "8=FIX.")
+        # with the next frame or its own trailer in the buffer the frame is all there
+        is_delimited = next_msg != -1
         if next_msg != -1:
             # Next fix message added, but incomplete
             next_msg += 1
@@ -176,6 +178,7 @@ class Codec:
             trailer_end = msg.find(self.SOH, trailer + 1, next_msg)
             if trailer_end != -1:
                 next_msg = trailer_end + 1
+                is_delimited = True
 
         # a malformed frame takes only itself out of the buffer
         frame_end = valid_idx + next_msg
@@ -189,6 +192,9 @@ class Codec:
         # at a minimum we require BeginString, BodyLength & Checksum
         if len(msg) < 3:
             assert silent, "Minimum message"
+            if is_delimited:
+                # nothing more will arrive for this frame, it is just too short
+                return (None, frame_end, None)
             return (None, parsed_length, None)
 
         tag, value = msg[0].split("=", 1)
@@ -220,10 +226,16 @@ class Codec:
         # message looks incomplete
         if msg_length > len(rawmsg) - valid_idx:
             assert silent, "incomplete message"
+            if is_delimited:
+                # the frame is complete, its BodyLength points beyond its end
+                return (None, frame_end, None)
             return (None, parsed_length, None)
 
         checksum_passed = False
         parsed_length += msg_length
+        if is_delimited:
+            # never take bytes of the following frame on the word of BodyLength
+            parsed_length = frame_end
 
         decoded_msg = FIXMessage("UNKNOWN")
         repeating_groups = []
@@ -241,8 +253,8 @@ class Codec:
                 return (None, frame_end, None)
 
             if tag == FTag.CheckSum:
-                if not (value.isascii() and value.isdigit()):
-                    assert silent, f"CheckSum is not a number {m}"
+                if not (value.isascii() and value.isdigit() and len(value) == 3):
+                    assert silent, f"CheckSum is not a 3 digit number {m}"
                     return (None, parsed_length, None)
                 cheksum_base = self.SOH.join(msg[:-1])
                 checksum = (sum([ord(i) for i in cheksum_base]) + 1) % 256
